@@ -29,6 +29,21 @@ def is_ref(ty):
     return isinstance(ty, tuple) and ty[0] == "ref"
 
 
+def _quantify(i, rng, f):
+    """[forall i. rng -> f] as a list of flat quantifiers: conjunctions are split and an inner universal quantifier is merged into
+    one multi-variable quantifier (z3 then infers usable patterns such as Nth(comp(i), j))."""
+    if z3.is_and(f):
+        return [q for ch in f.children() for q in _quantify(i, rng, ch)]
+    ivs = i if isinstance(i, list) else [i]
+    if z3.is_quantifier(f) and f.is_forall():
+        vs = [z3.FreshConst(f.var_sort(k), "qv") for k in range(f.num_vars())]
+        body = z3.substitute_vars(f.body(), *reversed(vs))
+        if z3.is_implies(body):
+            return _quantify(ivs + vs, z3.And(rng, body.arg(0)), body.arg(1))
+        return _quantify(ivs + vs, rng, body)
+    return [z3.ForAll(ivs, z3.Implies(rng, f))]
+
+
 class Interp(StmtMixin):
     def __init__(self, fsrc, contract, registry, budget_paths=4000):
         self.f = fsrc
@@ -67,6 +82,8 @@ class Interp(StmtMixin):
         key = f"{owner}.{field}"
         if not self.spec_mode:
             self.frame_check(st, key, ref.t, line)
+        if val.ty in ("pydict", "pyset") or (val.ty == "pylist" and is_ref(fty)):
+            val = self.box(st, val, fty)
         arr = self.heap_arr(st, owner, field, fty)
         st.heap[key] = z3.Store(arr, ref.t, self.coerce(val, fty).t)
 
@@ -621,6 +638,62 @@ class Interp(StmtMixin):
             else:
                 yield st1, Val(None, "pylist", vals)
 
+    def ev_Dict(self, e, st):
+        # a dict display: a Python-level value until it is stored into a typed field or variable (see `box`)
+        if any(k is None for k in e.keys):
+            raise Unsupported("dict display with ** unpacking")
+        for st1, vals in self.ev_list(list(e.keys) + list(e.values), st):
+            if isinstance(vals, Raise):
+                yield st1, vals
+            else:
+                n = len(e.keys)
+                yield st1, Val(None, "pydict", list(zip(vals[:n], vals[n:])))
+
+    def ev_Set(self, e, st):
+        for st1, vals in self.ev_list(e.elts, st):
+            if isinstance(vals, Raise):
+                yield st1, vals
+            else:
+                yield st1, Val(None, "pyset", vals)
+
+    def box(self, st, v, want):
+        """A container display (dict / set / list literal) stored where a heap container of class want[1] is expected:
+        a fresh heap object holding exactly the listed entries."""
+        cls = want[1]
+        d = self.alloc(st, cls)
+        if cls == "opaque":
+            return d
+        saved, self.spec_mode = self.spec_mode, 1          # initialising writes to the fresh object
+        try:
+            fields = models.CLASSES[cls]["fields"]
+            if v.ty == "pydict":
+                if "keys" not in fields:
+                    raise Unsupported(f"dict display stored as {cls}")
+                kty, mty = fields["keys"], fields["map"]
+                ks = z3.Empty(sort_of(kty))
+                mp = fresh_const("dlit", sort_of(mty))
+                for a, (kv, _) in enumerate(v.py):
+                    for kv2, _ in v.py[a + 1:]:
+                        if not z3.is_false(z3.simplify(self.coerce(kv, kty[1]).t == self.coerce(kv2, kty[1]).t)):
+                            raise Unsupported("dict display whose keys are not syntactically distinct")
+                for kv, vv in v.py:
+                    kt = self.coerce(kv, kty[1]).t
+                    ks = z3.Concat(ks, z3.Unit(kt)) if v.py else ks
+                    mp = z3.Store(mp, kt, self.coerce(vv, mty[2]).t)
+                self.write_field(st, d, cls, "keys", Val(ks, kty), None)
+                self.write_field(st, d, cls, "map", Val(mp, mty), None)
+            else:
+                if "items" not in fields:
+                    raise Unsupported(f"{v.ty} display stored as {cls}")
+                ity = fields["items"]
+                t = z3.Empty(sort_of(ity))
+                for it in v.py:
+                    t = z3.Concat(t, z3.Unit(self.coerce(it, ity[1]).t))
+                self.write_field(st, d, cls, "items", Val(t, ity), None)
+        finally:
+            self.spec_mode = saved
+        return d
+
     def ev_JoinedStr(self, e, st):
         # f-string: only supported when every piece is a str-typed value (or constant)
         parts = []
@@ -865,7 +938,9 @@ class Interp(StmtMixin):
         Yields ("raise", state, Raise) for raising outcomes and ("ok", state_after_all, [Val...]) for the normal one."""
         from . import core
         base_top = st1.top
-        topf = z3.Function(core.fresh_name("topf"), I, I)
+        outer = list(core.INDEX_STACK)
+        _tf = z3.Function(core.fresh_name("topf"), *([I] * (len(outer) + 1)), I)
+        topf = lambda k: _tf(*outer, k)       # per enclosing iteration: allocation counter after this comprehension's iteration k
         start_top = z3.If(i <= 0, base_top, topf(i - 1))
         s2.top = start_top
         base_len = len(s2.conds)
@@ -890,8 +965,8 @@ class Interp(StmtMixin):
         rng = z3.And(i >= 0, i < n)
         s3 = st1.fork()
         guard = sx.conds[base_len:]
-        if guard:
-            s3.conds.append(z3.ForAll([i], z3.Implies(rng, z3.And(*guard))))
+        for gc in guard:
+            s3.conds.extend(_quantify(i, rng, gc))
         allocates = not z3.eq(sx.top, start_top)
         changed = []
         for k in sx.heap:
@@ -910,7 +985,10 @@ class Interp(StmtMixin):
             # lemma (by induction, each iteration only allocates): the counter is monotone
             s3.conds.append(z3.ForAll([i], z3.Implies(rng, z3.And(topf(i) >= start_top, topf(i) >= base_top))))
             s3.conds.append(z3.ForAll([i, j], z3.Implies(z3.And(i >= 0, i <= j, j < n), topf(i) <= topf(j))))
-            s3.top = z3.If(n <= 0, base_top, topf(n - 1))
+            s3.top = fresh_const("topc", I)          # a name for the counter after the comprehension keeps later terms small
+            s3.conds.append(s3.top == z3.If(n <= 0, base_top, topf(n - 1)))
+            s3.conds.append(s3.top >= base_top)
+            s3.conds.append(z3.ForAll([i], z3.Implies(rng, topf(i) <= s3.top)))      # (instance j = n-1 of the monotonicity lemma)
             for k in changed:
                 arr = sx.heap[k]
                 stores = []
@@ -920,7 +998,7 @@ class Interp(StmtMixin):
                 if not z3.eq(arr, base_heap[k]):
                     raise Unsupported(f"heap field {k} is havocked inside a comprehension element")
                 owner, field = k.split(".")
-                hn = bound_var("H_" + k.replace(".", "_"), base_heap[k].sort())
+                hn = fresh_const("H_" + k.replace(".", "_"), base_heap[k].sort())    # (depends on the enclosing indices, if any)
                 x = bound_var("cx", I)
                 s3.conds.append(z3.ForAll([x], z3.Implies(x <= base_top, z3.Select(hn, x) == z3.Select(base_heap[k], x))))
                 for addr, val in stores:
@@ -994,9 +1072,12 @@ class Interp(StmtMixin):
             rm = fresh_const("dm", z3.ArraySort(kv.t.sort(), vv.t.sort()))
             rng = z3.And(i >= 0, i < n)
             identity_copy = items_of is not None and z3.eq(kv.t, ks.t[i]) and z3.eq(vv.t, z3.Select(mp.t, ks.t[i]))
+            same_keys = items_of is not None and z3.eq(kv.t, ks.t[i])
             if identity_copy:
                 # {k: v for k, v in d.items()}: a copy — same key sequence, same content (no fresh sequence to reason about)
                 rk, rm = ks.t, mp.t
+            elif same_keys:
+                rk = ks.t       # {k: f(k, v) for k, v in d.items()}: the key sequence is the source's
             # distinct keys: kexpr(i) != kexpr(j) for i != j
             j = bound_var("dj", I)
             kj = z3.substitute(kv.t, (i, j))
@@ -1109,6 +1190,17 @@ class Interp(StmtMixin):
             s3 = s3.assume(z3.Length(r) == n)
             rng = z3.And(i >= 0, i < n)
             s3 = s3.assume(z3.ForAll([i], z3.Implies(rng, r[i] == body.t), patterns=[r[i]]))
+            scls = f"set_{body.ty[1]}" if kind == "set" and is_ref(body.ty) else None
+            if scls in models.CLASSES and not self.spec_mode:
+                # a set of objects is a fresh heap object (it can be mutated later): members in an arbitrary order, duplicates possible
+                d = self.alloc(s3, scls)
+                saved, self.spec_mode = self.spec_mode, 1
+                try:
+                    self.write_field(s3, d, scls, "items", Val(r, rty), getattr(e, "lineno", None))
+                finally:
+                    self.spec_mode = saved
+                yield s3, d
+                continue
             yield s3, Val(r, rty)
 
     def ev_Call(self, e, st):
